@@ -16,10 +16,10 @@ func init() {
 	Register(&Scenario{
 		Prop: "C16", Run: scenarioC16, Race: true, Instrument: true, QuickRuns: 1600, ThoroughRuns: 40000, Level: "exploration",
 		FaultKinds: []string{"fault.cancel_in_reproduction"},
-		Rule:       "one run = one seeded world with the parallel executor turned over for 1..N epochs under one tape-chosen scheduling strategy (uniform random at every yield, run-to-completion in a random species order, round-robin, PCT-style priorities with change points); after every epoch the C01 well-formedness, C02 partition and C03 one-number-one-link oracles run; any Go race detector report is a violation. A case is one scheduled epoch; it is non-trivial when at least two reproduction goroutines ran and the schedule switched between them before one finished; distinct = distinct hash of the (task, yield tag) sequence",
+		Rule:       "one run = one seeded world (activation swarm, many species, interspecies mating) with the parallel executor turned over for 1..N epochs, in one epoch of a fifth of the runs with the context cancelled at the k-th offspring, under one tape-chosen scheduling strategy (uniform random at every yield, run-to-completion in a random species order, round-robin, PCT-style priorities with change points); after every epoch the C01 well-formedness, C02 partition and C03 one-number-one-link oracles run; any Go race detector report is a violation, and so are reproduction goroutines that are still alive when NextEpoch has returned (the parent's wg.Wait and channel receives are scheduling points, so an early return is reached exactly when the code allows it). A case is one scheduled epoch; it is non-trivial when at least two reproduction goroutines ran and the schedule switched between them before one finished; distinct = distinct hash of the (task, yield tag) sequence",
 		RealParts:  []string{"ParallelPopulationEpochExecutor and everything below it", "real goroutines, sync.Mutex, sync/atomic, channel and WaitGroup of the library", "Go race detector (happens-before) as the oracle for the race half", "math/rand global source (locked) seeded from the tape"},
 		StubParts:  []string{"the Go scheduler's choice of which reproduction goroutine proceeds at a hook point (replaced by the tape)", "fitness assignment"},
-		Assumes:    []string{"interleavings are explored at hook-point granularity; finer (instruction-level) interleavings are covered only through the race detector's happens-before analysis", "non-modular genomes"},
+		Assumes:    []string{"the worker is built against a scratch copy of the tree in which cmd/instr inserted yield points before every statement of the functions that touch shared state (sync/atomic, locks, channels, package-level variables) or receive the population / species list, and (thorough tier) of every function of the crossover and mutation files; interleavings are explored at that granularity plus the hand-placed hook points", "two accesses that the library's own synchronisation happens to order (every call of the seeded global math/rand source takes one mutex) are invisible to the race detector; a switch inside one statement is covered only through the race detector's happens-before analysis", "non-modular genomes"},
 		ProbeNames: []string{"probe.tasks>=2", "probe.interleaved_epoch", "probe.structural_in_parallel", "probe.yield.Innovations", "probe.yield.StoreInnovation", "probe.yield.NextInnovationNumber", "probe.yield.NextNodeId"},
 	})
 }
